@@ -120,6 +120,9 @@ package ray
 // such worker group (named by the group, else by its position in the owner's list) after the head sub-group, and the
 // sub-group minimums are exactly the summands. All functions of the RayCluster object. C10: wrongly typed fields = error.
 // NOTE no lower bound is enforced on a worker group's contribution (negative replicas are passed through).
+// NOT DECIDED: name/minimum/topology of the individual worker sub-groups (position = 1 + number of non-skipped groups
+// before it): the invariants over count-indexed positions of an appended slice were proved once but took > 100 s and
+// were unstable, so they are not claimed (sgPos is kept for documentation).
 //@ func calcJobNumOfPodsAndSubGroups
 //@   props C18 C10
 //@   requires topOwner != nil
@@ -130,11 +133,107 @@ package ray
 //@     invariant forall j int :: 0 <= j && j <= rangeindex ==> !wgFails(wgAt(topOwner, j))
 //@     invariant minReplicas == 1 + (sum i in range(0, rangeindex + 1) :: ite(wgSkip(wgAt(topOwner, i)), 0, wgPods(wgAt(topOwner, i))))
 //@     invariant len(subGroups) == 1 + (count k in range(0, rangeindex + 1) :: !wgSkip(wgAt(topOwner, k)))
-//@     invariant len(subGroups) >= 1 && subGroups[0] != nil && subGroups[0].Name == "headgroup" && subGroups[0].MinAvailable == 1 && subGroups[0].TopologyConstraints == headTopologyConstraints && len(subGroups[0].PodsReferences) == 0
+//@     invariant len(subGroups) >= 1
+//@     invariant forall j int :: 0 <= j && j < len(subGroups) ==> subGroups[j] != nil && allocated(subGroups[j])
+//@     invariant subGroups[0].Name == "headgroup" && subGroups[0].MinAvailable == 1
+//@     invariant subGroups[0].TopologyConstraints == headTopologyConstraints && len(subGroups[0].PodsReferences) == 0
 //@   ensures [errIff] (result2 != nil) == rayFails(topOwner)
 //@   ensures [errorZero] result2 != nil ==> result0 == 0 && len(result1) == 0
 //@   ensures [minOfOwner] result2 == nil ==> result0 == rayPods(topOwner)
 //@   ensures [subGroupCount] result2 == nil ==> len(result1) == 1 + (count k in range(0, wgsLen(topOwner)) :: !wgSkip(wgAt(topOwner, k)))
+//@   ensures [subGroupsNonNil] result2 == nil ==> (forall j int :: 0 <= j && j < len(result1) ==> result1[j] != nil)
 //@   ensures [headSubGroup] result2 == nil ==> result1[0] != nil && result1[0].Name == "headgroup" && result1[0].MinAvailable == 1 && len(result1[0].PodsReferences) == 0
 //@   ensures [headTopology] result2 == nil ==> ite(defaultgrouper.nMapFound(topOwner.Object, headPath()), tplIs(result1[0].TopologyConstraints, headMap(topOwner)), result1[0].TopologyConstraints == nil)
+//@ end
+
+// the reconciled pod is recorded as a member of the sub-group named by its ray.io/group label (pod template); only the
+// member lists change
+//@ define rayGroupLabel() string = "ray.io/group"
+//@ func assignRayPodToSubGroup
+//@   props C18 C10
+//@   requires pod != nil && pgMetadata != nil
+//@   requires forall j int :: 0 <= j && j < len(pgMetadata.SubGroups) ==> pgMetadata.SubGroups[j] != nil
+//@   modifies family(pgMetadata.SubGroups[0].PodsReferences)
+//@   loop 1
+//@     invariant rangeindex >= -1
+//@     invariant forall j int :: 0 <= j && j <= rangeindex ==> pgMetadata.SubGroups[j].Name != pod.Labels[rayGroupLabel()]
+//@   ensures [errIffNoSuchGroup] (result != nil) == (!(rayGroupLabel() in pod.Labels) || (forall j int :: 0 <= j && j < len(pgMetadata.SubGroups) ==> pgMetadata.SubGroups[j].Name != pod.Labels[rayGroupLabel()]))
+//@ end
+
+// C18: minimum and sub-groups come from the RayCluster object; sub-groups are dropped only for a legacy stored group.
+//@ define subGroupsUsed(o *unstructured.Unstructured, pod *v1.Pod) bool = useSubGroups(pod.Namespace, defaultgrouper.pgName(o))
+//@ func (*RayGrouper).getPodGroupMetadataInternal
+//@   props C18 C10
+//@   requires rg != nil && rg.client != nil && rg.DefaultGrouper != nil && topOwner != nil && rayClusterObj != nil && pod != nil
+//@   ensures [errIff] (result1 != nil) == rayFails(rayClusterObj)
+//@   ensures [errorNoMetadata] result1 != nil ==> result0 == nil
+//@   ensures [fresh] result1 == nil ==> result0 != nil && fresh(result0)
+//@   ensures [minOfCluster] result1 == nil ==> result0.MinAvailable == rayPods(rayClusterObj)
+//@   ensures [subGroupCount] result1 == nil ==> len(result0.SubGroups) == ite(subGroupsUsed(topOwner, pod), 1 + (count k in range(0, wgsLen(rayClusterObj)) :: !wgSkip(wgAt(rayClusterObj, k))), 0)
+//@   ensures [subGroupsNonNil] result1 == nil ==> (forall j int :: 0 <= j && j < len(result0.SubGroups) ==> result0.SubGroups[j] != nil)
+//@   ensures [headSubGroup] result1 == nil && subGroupsUsed(topOwner, pod) ==> result0.SubGroups[0].Name == "headgroup" && result0.SubGroups[0].MinAvailable == 1
+//@   ensures [nameOfOwnerOnly] result1 == nil ==> result0.Name == defaultgrouper.pgName(topOwner)
+//@   ensures [ownerRef] result1 == nil ==> defaultgrouper.baseOwnerRef(result0, topOwner)
+//@   ensures [common] result1 == nil ==> defaultgrouper.baseCommon(result0, rg.DefaultGrouper, topOwner, pod)
+//@   ensures [priority] result1 == nil ==> result0.PriorityClassName == defaultgrouper.ownerPrio(rg.DefaultGrouper, topOwner, pod, constants.TrainPriorityClass)
+//@ end
+
+// RayCluster pods: the cluster object is the owner itself. RayJob / RayService: the RayCluster named in the owner's
+// status is fetched. NOT DECIDED: which stored RayCluster that is (first status path that is set) - only the
+// owner-derived fields are stated for those two kinds.
+//@ func (*RayGrouper).extractRayClusterObject
+//@   props C18 C10
+//@   requires rg != nil && rg.client != nil && topOwner != nil
+//@   loop 1
+//@     invariant pathIndex >= 0
+//@   ensures [noPathMeansOwner] len(rayClusterNamePaths) == 0 ==> rayClusterObj == topOwner && err == nil
+//@   ensures [errorNil] (err != nil) == (rayClusterObj == nil)
+//@ end
+
+//@ define rayPrio(dg *defaultgrouper.DefaultGrouper, o *unstructured.Unstructured, pod *v1.Pod) string = ite("ray.io/priority-class-name" in defaultgrouper.ownerLabels(o), defaultgrouper.ownerLabels(o)["ray.io/priority-class-name"], defaultgrouper.ownerPrio(dg, o, pod, constants.TrainPriorityClass))
+//@ func (*RayGrouper).getPodGroupMetadataWithClusterNamePath
+//@   props C18 C10
+//@   requires rg != nil && rg.client != nil && rg.DefaultGrouper != nil && topOwner != nil && pod != nil
+//@   modifies *
+//@   note modifies *: the only writes are the member lists (PodsReferences) of the sub-groups built by this very call; the spec language has no handle for "field of the objects in a result slice" in a frame clause
+//@   ensures [errorNoMetadata] result1 != nil ==> result0 == nil
+//@   ensures [fresh] result1 == nil ==> result0 != nil && fresh(result0)
+//@   ensures [errIffOwnerIsCluster] len(clusterNamePaths) == 0 ==> (result1 != nil) == rayFails(topOwner)
+//@   ensures [minOfOwnerCluster] len(clusterNamePaths) == 0 && result1 == nil ==> result0.MinAvailable == rayPods(topOwner)
+//@   ensures [priorityRayLabelFirst] result1 == nil ==> result0.PriorityClassName == rayPrio(rg.DefaultGrouper, topOwner, pod)
+//@   ensures [nameOfOwnerOnly] result1 == nil ==> result0.Name == defaultgrouper.pgName(topOwner)
+//@   ensures [ownerRef] result1 == nil ==> defaultgrouper.baseOwnerRef(result0, topOwner)
+//@   ensures [common] result1 == nil ==> defaultgrouper.baseCommon(result0, rg.DefaultGrouper, topOwner, pod)
+//@ end
+
+// (priority / queue / labels / annotations of the three wrappers: proved one level down, in getPodGroupMetadataWithClusterNamePath;
+// not restated here because its coarse frame `modifies *` would force old() around every heap read)
+//@ func (*RayClusterGrouper).GetPodGroupMetadata
+//@   props C18 C10
+//@   requires rcg != nil && rcg.RayGrouper != nil && rcg.RayGrouper.client != nil && rcg.RayGrouper.DefaultGrouper != nil && topOwner != nil && pod != nil
+//@   modifies *
+//@   note modifies *: the only writes are the member lists (PodsReferences) of the sub-groups built by this very call; the spec language has no handle for "field of the objects in a result slice" in a frame clause
+//@   ensures [errIff] (result1 != nil) == rayFails(topOwner)
+//@   ensures [errorNoMetadata] result1 != nil ==> result0 == nil
+//@   ensures [minOfOwner] result1 == nil ==> result0.MinAvailable == rayPods(topOwner)
+//@   ensures [nameOfOwnerOnly] result1 == nil ==> result0.Name == defaultgrouper.pgName(topOwner)
+//@   ensures [ownerRef] result1 == nil ==> defaultgrouper.baseOwnerRef(result0, topOwner)
+//@ end
+//@ func (*RayJobGrouper).GetPodGroupMetadata
+//@   props C18 C10
+//@   requires rjg != nil && rjg.RayGrouper != nil && rjg.RayGrouper.client != nil && rjg.RayGrouper.DefaultGrouper != nil && topOwner != nil && pod != nil
+//@   modifies *
+//@   note modifies *: the only writes are the member lists (PodsReferences) of the sub-groups built by this very call; the spec language has no handle for "field of the objects in a result slice" in a frame clause
+//@   ensures [errorNoMetadata] result1 != nil ==> result0 == nil
+//@   ensures [nameOfOwnerOnly] result1 == nil ==> result0.Name == defaultgrouper.pgName(topOwner)
+//@   ensures [ownerRef] result1 == nil ==> defaultgrouper.baseOwnerRef(result0, topOwner)
+//@ end
+//@ func (*RayServiceGrouper).GetPodGroupMetadata
+//@   props C18 C10
+//@   requires rsg != nil && rsg.RayGrouper != nil && rsg.RayGrouper.client != nil && rsg.RayGrouper.DefaultGrouper != nil && topOwner != nil && pod != nil
+//@   modifies *
+//@   note modifies *: the only writes are the member lists (PodsReferences) of the sub-groups built by this very call; the spec language has no handle for "field of the objects in a result slice" in a frame clause
+//@   ensures [errorNoMetadata] result1 != nil ==> result0 == nil
+//@   ensures [nameOfOwnerOnly] result1 == nil ==> result0.Name == defaultgrouper.pgName(topOwner)
+//@   ensures [ownerRef] result1 == nil ==> defaultgrouper.baseOwnerRef(result0, topOwner)
 //@ end
